@@ -12,6 +12,16 @@
 // universe before and after (balances, votes, voteFor, candidate registration + deposit, asset supply and every
 // holder's equity), read with account.NewManager(blockHash, db).  It never judges.
 //
+// Issued assets.  The setup chain creates one asset per category / flag combination the code distinguishes (assetDefs:
+// token, non-fungible, common, and a common one that the setup chain FREEZES after issuing it) and issues them
+// (setupIssues); in categories 2 and 3 the asset id is the hash of the issue transaction, so every id has a name of its
+// own (N1, C2, ...; X1.. for the ids that issue transactions of the scenario create - the spec action names the slot).
+// The state lists supply / freeze per code and, per id, every holder's equity and the code recorded with the equity.
+//
+// Block gas.  The spec action GasLimit(g) makes the header of the block under construction name gas limit g (as
+// harness/adapters/blockexec does, node.BuildWith); a candidate that does not fit is neither packaged nor discarded by
+// the miner (logged as inc=false, left=true).
+//
 // Worlds.  The initial state of a behaviour names the term duration T, the interim duration I and the height h0 of
 // the last setup block (st.T, st.I, st.h).  With the real durations (the "mid-term" world) the scenario blocks are
 // heights 4-5 of the genesis term, never confirmed, and every behaviour forks off the last setup block of one node
@@ -71,12 +81,35 @@ type atx struct {
 	GL   uint64
 	GP   int64
 	Subs []*atx
+	C    string // asset transactions: the asset code (by name) ...
+	ID   string // ... and the asset id (by name) they name; an issue in category 2 / 3 CREATES the id of that name
 	// filled after execution
 	Inc  bool
+	Dis  bool // discarded by the miner as invalid
 	GU   uint64
 	hash common.Hash
 	X    int64 // kind specific: the term of a reward setting
 }
+
+// assetDef: an asset the setup chain creates (issuer a4)
+type assetDef struct {
+	name      string
+	cat       int
+	div, repl bool
+}
+
+var assetDefs = []assetDef{{"T", 1, true, true}, {"N", 2, false, false}, {"C", 3, true, true}, {"G", 3, true, false}}
+
+// setupIssues: the issue transactions of setup block S2 (category 1: id = code; otherwise the transaction creates the id)
+var setupIssues = []struct {
+	code, id, to string
+	amt          int64
+}{{"T", "T", "a1", 100}, {"T", "T", "a2", 100}, {"N", "N1", "a1", 100}, {"N", "N2", "a2", 1},
+	{"C", "C1", "a1", 100}, {"C", "C2", "a2", 100}, {"G", "G1", "a1", 100}}
+
+const frozenInSetup = "G"
+
+var freshSlots = []string{"X1", "X2", "X3"}
 
 // world: one setup chain (see the package comment)
 type world struct {
@@ -105,7 +138,12 @@ type adapter struct {
 	wd      *world // the world of the current node pair
 	defT    uint32
 	defI    uint32
-	assetID common.Hash
+	codeHash map[string]common.Hash // asset code by name
+	codeName map[common.Hash]string
+	idHash   map[string]common.Hash // asset id by name (setup ids; fresh slots once an issue transaction was built for them)
+	idNames  []string
+	bgl      uint64 // gas limit the header of the block under construction names (0: the parent's, ample)
+	nfresh   int    // fresh asset id slots handed to the issue actions of this behaviour
 	gen     *node.Node // builds the setup blocks
 	B, V    *node.Node
 	parent  *types.Block
@@ -157,7 +195,8 @@ var runtimeCode = map[string][]byte{
 }
 
 // what the setup transactions of an account cost it, roughly (deposit + fees), so that it starts the scenario near initBal
-var setupCost = map[string]int64{"a1": 35, "a3": 300 + 112, "a4": 75 + 2*60, "M1": 112, "M2": 112}
+// (the genesis deputies also EARN the fees of the setup blocks they mine before their income address points at I)
+var setupCost = map[string]int64{"a1": 35, "a3": 300 + 112, "a4": 4*75 + 7*64 + 39, "M1": 112 - 233, "M2": 112 - 359}
 var contractNames = []string{"KS", "KR", "KX", "KD", "KO"}
 
 func initCode(rt []byte) []byte {
@@ -187,6 +226,7 @@ func (a *adapter) init() {
 	params.TermRewardPoolTotal = units(rewardPool * lemo)
 	a.defT, a.defI = params.TermDuration, params.InterimDuration
 	a.worlds = map[string]*world{}
+	a.codeHash, a.codeName, a.idHash = map[string]common.Hash{}, map[common.Hash]string{}, map[string]common.Hash{}
 	a.w = node.NewWorld(2, 1000)
 	deputynode.SetSelfNodeKey(a.w.Outsider2())
 	a.byName = map[string]*acct{}
@@ -299,19 +339,21 @@ func (a *adapter) realTx(t *atx, exp uint64) *types.Transaction {
 		data = initCode(runtimeCode[t.T])
 	case "create":
 		typ, to = params.CreateAssetTx, nil
-		data = []byte(`{"category":"1","isDivisible":true,"decimal":"0","isReplenishable":true,"profile":{"name":"T","symbol":"T","description":"d","suggestedGasLimit":"60000"}}`)
+		d := a.assetDef(t.C)
+		data = []byte(fmt.Sprintf(`{"category":"%d","isDivisible":%v,"decimal":"0","isReplenishable":%v,"profile":{"name":"%s","symbol":"%s","description":"d","suggestedGasLimit":"60000"}}`,
+			d.cat, d.div, d.repl, d.name, d.name))
 	case "issue":
 		typ = params.IssueAssetTx
-		data = []byte(fmt.Sprintf(`{"assetCode":"%s","metaData":"m","supplyAmount":"%s"}`, a.assetID.Hex(), amtS))
+		data = []byte(fmt.Sprintf(`{"assetCode":"%s","metaData":"m","supplyAmount":"%s"}`, a.code(t.C).Hex(), amtS))
 	case "repl":
 		typ = params.ReplenishAssetTx
-		data = []byte(fmt.Sprintf(`{"assetCode":"%s","assetId":"%s","replenishAmount":"%s"}`, a.assetID.Hex(), a.assetID.Hex(), amtS))
+		data = []byte(fmt.Sprintf(`{"assetCode":"%s","assetId":"%s","replenishAmount":"%s"}`, a.code(t.C).Hex(), a.id(t.ID).Hex(), amtS))
 	case "axfer":
 		typ = params.TransferAssetTx
-		data = []byte(fmt.Sprintf(`{"assetId":"%s","transferAmount":"%s"}`, a.assetID.Hex(), amtS))
+		data = []byte(fmt.Sprintf(`{"assetId":"%s","transferAmount":"%s"}`, a.id(t.ID).Hex(), amtS))
 	case "freeze", "unfreeze":
 		typ, to = params.ModifyAssetTx, nil
-		data = []byte(fmt.Sprintf(`{"assetCode":"%s","updateProfile":{"freeze":"%v"}}`, a.assetID.Hex(), t.K == "freeze"))
+		data = []byte(fmt.Sprintf(`{"assetCode":"%s","updateProfile":{"freeze":"%v"}}`, a.code(t.C).Hex(), t.K == "freeze"))
 	case "box":
 		typ, to = params.BoxTx, nil
 		var subs types.Transactions
@@ -355,7 +397,37 @@ func (a *adapter) realTx(t *atx, exp uint64) *types.Transaction {
 		tx = a.must(types.MakeSigner().SignTx(tx, f.key))
 	}
 	t.hash = tx.Hash()
+	// the id an issue transaction of category 2 / 3 creates is the hash of that transaction
+	if t.K == "issue" && t.ID != t.C {
+		a.idHash[t.ID] = t.hash
+	}
 	return tx
+}
+
+func (a *adapter) assetDef(name string) assetDef {
+	for _, d := range assetDefs {
+		if d.name == name {
+			return d
+		}
+	}
+	engine.Failf("unknown asset %q", name)
+	return assetDef{}
+}
+
+func (a *adapter) code(name string) common.Hash {
+	h, ok := a.codeHash[name]
+	if !ok {
+		engine.Failf("unknown asset code %q", name)
+	}
+	return h
+}
+
+// id: the asset id of that name; a slot no issue transaction was built for yet names an id that does not exist
+func (a *adapter) id(name string) common.Hash {
+	if h, ok := a.idHash[name]; ok {
+		return h
+	}
+	return crypto.Keccak256Hash([]byte("unissued asset id " + name))
 }
 
 func mk(k, f, t string, amt int64, gl uint64) *atx {
@@ -375,18 +447,41 @@ func (a *adapter) buildSetup() {
 	for _, c := range contractNames {
 		s1 = append(s1, mk("deploy", "F", c, 0, 200000))
 	}
-	create := mk("create", "a4", "", 0, 150000)
-	s1 = append(s1, create, mk("reg", "a3", "", 300*lemo, 200000))
+	var creates []*atx
+	for _, d := range assetDefs {
+		c := mk("create", "a4", "", 0, 150000)
+		c.C = d.name
+		creates = append(creates, c)
+		s1 = append(s1, c)
+	}
+	s1 = append(s1, mk("reg", "a3", "", 300*lemo, 200000))
 	txs := a.realAll(s1)
 	for i, c := range contractNames {
 		a.add(c, nil, crypto.CreateContractAddress(a.byName["F"].addr, s1[7+i].hash))
 	}
 	b1 := a.buildOn(a.gen, g, txs, s1, "S1")
-	a.assetID = create.hash
+	for _, c := range creates { // the asset code is the hash of the create transaction; a token's one id is its code
+		a.codeHash[c.C], a.codeName[c.hash] = c.hash, c.C
+		if a.assetDef(c.C).cat == 1 {
+			a.idHash[c.C] = c.hash
+		}
+	}
 	if _, err := a.gen.DB.SetStableBlock(b1.Hash()); err != nil {
 		engine.Failf("setup: stabilise S1: %v", err)
 	}
-	s2 := []*atx{mk("issue", "a4", "a1", 100, 150000), mk("issue", "a4", "a2", 100, 150000), mk("vote", "a1", "a3", 0, 40000)}
+	var s2 []*atx
+	for _, is := range setupIssues {
+		t := mk("issue", "a4", is.to, is.amt, 150000)
+		t.C, t.ID = is.code, is.id
+		s2 = append(s2, t)
+		if len(a.idNames) == 0 || a.idNames[len(a.idNames)-1] != is.id {
+			a.idNames = append(a.idNames, is.id)
+		}
+	}
+	a.idNames = append(a.idNames, freshSlots...)
+	frz := mk("freeze", "a4", "", 0, 100000) // one asset is frozen from the start
+	frz.C = frozenInSetup
+	s2 = append(s2, mk("vote", "a1", "a3", 0, 40000), frz)
 	b2 := a.buildOn(a.gen, b1, a.realAll(s2), s2, "S2")
 	if _, err := a.gen.DB.SetStableBlock(b2.Hash()); err != nil {
 		engine.Failf("setup: stabilise S2: %v", err)
@@ -433,7 +528,13 @@ func (a *adapter) fresh(tag string, wd *world) *node.Node {
 	// processor of this node discards / rejects every transaction on the asset ("asset dose not exist").  Wait for it
 	// (setup only; no verdict depends on the clock).
 	for i := 0; ; i++ {
-		if is, err := n.DB.GetAssetCode(a.assetID); err == nil && is == a.byName["a4"].addr {
+		missing := 0
+		for _, h := range a.codeHash {
+			if is, err := n.DB.GetAssetCode(h); err != nil || is != a.byName["a4"].addr {
+				missing++
+			}
+		}
+		if missing == 0 {
 			break
 		}
 		if i > 20000 {
@@ -580,7 +681,10 @@ func (a *adapter) Reset(init map[string]tla.Value) (engine.Fields, error) {
 	}
 	a.nbeh++
 	a.parent = wd.setup[len(wd.setup)-1]
-	a.pending, a.last, a.lastTxs = nil, nil, nil
+	a.pending, a.last, a.lastTxs, a.bgl, a.nfresh = nil, nil, nil, 0, 0
+	for _, x := range freshSlots { // the ids the scenario's issue transactions will create do not exist yet
+		delete(a.idHash, x)
+	}
 	names := []string{}
 	for _, ac := range a.accs {
 		names = append(names, ac.name)
@@ -590,7 +694,12 @@ func (a *adapter) Reset(init map[string]tla.Value) (engine.Fields, error) {
 		"V": 200 * lemo, "D": 100 * lemo, "mindep": 300 * lemo,
 		"rev": []string{"KR", "KX"}, "sink": []string{"KS"}, "burn": []string{"KD"}, "back": []string{"KO"},
 		"rm": "F", "rc": "R", "prec": toUnits(params.MinRewardPrecision, "prec", &bad), "rpool": toUnits(params.TermRewardPoolTotal, "rpool", &bad),
-		"height": int(a.parent.Height()), "stab": wd.stab}
+		"height": int(a.parent.Height()), "stab": wd.stab, "fresh": freshSlots}
+	assets := map[string]interface{}{}
+	for _, d := range assetDefs {
+		assets[d.name] = map[string]interface{}{"cat": d.cat, "div": d.div, "repl": d.repl, "iss": "a4"}
+	}
+	fl["assets"] = assets
 	fl["deps"], fl["payees"] = a.terms(a.B, wd, a.parent.Hash())
 	fl["st"] = a.state(a.B.DB, a.parent.Hash(), &bad)
 	fl["inexact"] = bad
@@ -621,8 +730,13 @@ func small(v *big.Int, what string, bad *[]string) int64 {
 // state reads the whole universe at block `h` from db.
 func (a *adapter) state(db *store.ChainDatabase, h common.Hash, bad *[]string) map[string]interface{} {
 	am := account.NewManager(h, db)
-	bal, votes, vf, reg, dep, eq := map[string]int64{}, map[string]int64{}, map[string]string{}, map[string]string{}, map[string]int64{}, map[string]int64{}
+	bal, votes, vf, reg, dep := map[string]int64{}, map[string]int64{}, map[string]string{}, map[string]string{}, map[string]int64{}
 	code := map[string]bool{}
+	// per asset id: every holder's equity (non-zero ones) and the asset code recorded with the equity entries
+	eq, idc := map[string]map[string]int64{}, map[string]string{}
+	for _, id := range a.idNames {
+		eq[id], idc[id] = map[string]int64{}, "none"
+	}
 	for _, ac := range a.accs {
 		x := am.GetAccount(ac.addr)
 		bal[ac.name] = toUnits(x.GetBalance(), "bal."+ac.name, bad)
@@ -655,16 +769,32 @@ func (a *adapter) state(db *store.ChainDatabase, h common.Hash, bad *[]string) m
 				dep[ac.name] = toUnits(d, "dep."+ac.name, bad)
 			}
 		}
-		eq[ac.name] = 0
-		if (a.assetID != common.Hash{}) {
-			if e, err := x.GetEquityState(a.assetID); err == nil && e != nil {
-				eq[ac.name] = small(e.Equity, "eq."+ac.name, bad)
-			} else if err != nil && err != types.ErrEquityNotExist {
-				*bad = append(*bad, "eq."+ac.name+":"+err.Error())
+		for _, id := range a.idNames {
+			h, ok := a.idHash[id]
+			if !ok {
+				continue
+			}
+			e, err := x.GetEquityState(h)
+			if err == types.ErrEquityNotExist || (err == nil && e == nil) {
+				continue
+			}
+			if err != nil {
+				*bad = append(*bad, "eq."+id+"."+ac.name+":"+err.Error())
+				continue
+			}
+			if v := small(e.Equity, "eq."+id+"."+ac.name, bad); v != 0 {
+				eq[id][ac.name] = v
+			}
+			cn, known := a.codeName[e.AssetCode]
+			if !known || e.AssetId != h || (idc[id] != "none" && idc[id] != cn) {
+				*bad = append(*bad, fmt.Sprintf("eq.%s.%s names code %s id %s", id, ac.name, e.AssetCode.Hex(), e.AssetId.Hex()))
+			} else {
+				idc[id] = cn
 			}
 		}
 	}
-	st := map[string]interface{}{"bal": bal, "votes": votes, "vf": vf, "reg": reg, "dep": dep, "eq": eq, "code": code, "sup": 0, "frz": false}
+	sup, frz := map[string]int64{}, map[string]bool{}
+	st := map[string]interface{}{"bal": bal, "votes": votes, "vf": vf, "reg": reg, "dep": dep, "eq": eq, "idc": idc, "code": code, "sup": sup, "frz": frz}
 	// the block's height, the durations in force, and what the reward precompile has stored for terms 0 and 1
 	st["T"], st["I"] = int(params.TermDuration), int(params.InterimDuration)
 	if blk, err := db.GetBlockByHash(h); err == nil {
@@ -707,22 +837,23 @@ func (a *adapter) state(db *store.ChainDatabase, h common.Hash, bad *[]string) m
 		idx[n] = true
 	}
 	st["idx"], st["stab"] = idx, a.wd != nil && a.wd.stab
-	if (a.assetID != common.Hash{}) {
-		is := am.GetAccount(a.byName["a4"].addr)
-		if s, err := is.GetAssetCodeTotalSupply(a.assetID); err == nil {
-			st["sup"] = small(s, "sup", bad)
+	is := am.GetAccount(a.byName["a4"].addr)
+	for _, d := range assetDefs {
+		h := a.code(d.name)
+		if s, err := is.GetAssetCodeTotalSupply(h); err == nil {
+			sup[d.name] = small(s, "sup."+d.name, bad)
 		} else {
-			*bad = append(*bad, "sup:"+err.Error())
+			*bad = append(*bad, "sup."+d.name+":"+err.Error())
 		}
-		if f, err := is.GetAssetCodeState(a.assetID, types.AssetFreeze); err == nil && f == "true" {
-			st["frz"] = true
-		}
+		f, err := is.GetAssetCodeState(h, types.AssetFreeze)
+		frz[d.name] = err == nil && f == "true"
 	}
 	return st
 }
 
 func (t *atx) json() map[string]interface{} {
-	m := map[string]interface{}{"k": t.K, "f": t.F, "t": t.T, "p": t.P, "amt": t.Amt, "gl": t.GL, "gp": t.GP, "gu": t.GU, "inc": t.Inc, "x": t.X}
+	m := map[string]interface{}{"k": t.K, "f": t.F, "t": t.T, "p": t.P, "amt": t.Amt, "gl": t.GL, "gp": t.GP, "gu": t.GU, "inc": t.Inc, "x": t.X,
+		"c": t.C, "id": t.ID, "left": !t.Inc && !t.Dis}
 	subs := []interface{}{}
 	for _, s := range t.Subs {
 		subs = append(subs, s.json())
@@ -748,53 +879,42 @@ func (a *adapter) mine() (*types.Block, []*atx) {
 		// distinct expirations keep equal abstract transactions distinct real ones
 		txs = append(txs, a.realTx(t, uint64(node.GenesisTime)+1000+uint64(int(a.parent.Height())*50+i)))
 	}
-	blk, invalid, err := a.B.Build(a.parent, a.minerFor(a.parent), 0, txs, fmt.Sprintf("h%d.%d", a.parent.Height()+1, a.nbuild))
+	var tweak func(h *types.Header)
+	if a.bgl > 0 {
+		tweak = func(h *types.Header) { h.GasLimit = a.bgl }
+	}
+	blk, invalid, err := a.B.BuildWith(a.parent, a.minerFor(a.parent), 0, txs, fmt.Sprintf("h%d.%d", a.parent.Height()+1, a.nbuild), tweak, true)
 	a.nbuild++
 	if err != nil {
 		engine.Realf("Build: %v", err)
 	}
-	inc := map[common.Hash]*types.Transaction{}
-	for _, tx := range blk.Txs {
-		inc[tx.Hash()] = tx
-	}
-	if len(invalid)+len(blk.Txs) != len(txs) {
-		engine.Realf("miner neither packaged nor discarded a transaction: %d + %d != %d", len(blk.Txs), len(invalid), len(txs))
-	}
-	for i, t := range abs {
-		// the hash of a box changes when the processor rewrites its data: match by position among packaged ones
-		_ = i
-		if tx, ok := inc[t.hash]; ok {
-			t.Inc, t.GU = true, tx.GasUsed()
-		}
-	}
-	// boxes: the packaged box carries the executed sub transactions (their gasUsed) in its data
-	bi := 0
-	var boxes []*types.Transaction
-	for _, tx := range blk.Txs {
-		if tx.Type() == params.BoxTx {
-			boxes = append(boxes, tx)
-		}
-	}
-	isInvalid := map[common.Hash]bool{}
-	for _, tx := range invalid {
-		isInvalid[tx.Hash()] = true
-	}
+	// Every candidate is packaged, discarded as invalid, or left alone (it does not fit into the block any more).  The
+	// message field identifies it (the hash of a packaged box differs from the candidate's: the processor rewrites its data).
+	byMsg := map[string]*atx{}
 	for _, t := range abs {
-		if t.K != "box" || isInvalid[t.hash] {
-			continue
+		byMsg[fmt.Sprintf("u%d", t.uid)] = t
+	}
+	for _, tx := range invalid {
+		t := byMsg[tx.Message()]
+		if t == nil || t.Dis {
+			engine.Failf("the miner discarded a transaction it was not offered (or twice): %s", tx.Message())
 		}
-		if bi >= len(boxes) {
-			engine.Failf("box neither packaged nor discarded")
+		t.Dis = true
+	}
+	for _, tx := range blk.Txs {
+		t := byMsg[tx.Message()]
+		if t == nil || t.Inc || t.Dis {
+			engine.Realf("the miner packaged a transaction it was not offered, twice, or one it also discarded: %s", tx.Message())
 		}
-		tx := boxes[bi]
-		bi++
 		t.Inc, t.GU = true, tx.GasUsed()
-		box, err := types.GetBox(tx.Data())
-		if err != nil || len(box.SubTxList) != len(t.Subs) {
-			engine.Failf("packaged box unreadable: %v", err)
-		}
-		for j, s := range box.SubTxList {
-			t.Subs[j].Inc, t.Subs[j].GU = true, s.GasUsed()
+		if t.K == "box" { // the packaged box carries the executed sub transactions (their gasUsed) in its data
+			box, err := types.GetBox(tx.Data())
+			if err != nil || len(box.SubTxList) != len(t.Subs) {
+				engine.Failf("packaged box unreadable: %v", err)
+			}
+			for j, s := range box.SubTxList {
+				t.Subs[j].Inc, t.Subs[j].GU = true, s.GasUsed()
+			}
 		}
 	}
 	return blk, abs
@@ -854,6 +974,7 @@ func (a *adapter) logBlock(fl engine.Fields, db *store.ChainDatabase, blk *types
 	fl["h"] = int(blk.Height())
 	fl["miner"] = a.byAddr[blk.MinerAddress()]
 	fl["hgu"] = blk.GasUsed()
+	fl["bgl"] = blk.GasLimit()
 	if a.logPre { // the state at the parent is the committed state the monitor already holds; logged by the probe driver only
 		fl["pre"] = a.state(db, blk.ParentHash(), &bad)
 	}
@@ -909,18 +1030,36 @@ func (a *adapter) Apply(s engine.Step) (engine.Fields, error) {
 	case "SetReward": // sender, term, value (LEMO)
 		t = mk("setrew", str(0), "R", num(2)*lemo, 60000)
 		t.X = num(1)
-	case "Issue":
+	case "GasLimit": // the header of the block under construction names this gas limit
+		if len(a.pending) != 0 || num(0) <= 0 {
+			engine.Failf("GasLimit(%d) with %d candidates already tried", num(0), len(a.pending))
+		}
+		a.bgl, a.last, a.lastTxs = uint64(num(0)), nil, nil
+		fl["bgl"] = a.bgl
+		return fl, nil
+	case "Issue": // f, t, amount, asset code; the id it credits: the token's (= the code), otherwise a NEW id - the next fresh slot
 		t = mk("issue", str(0), str(1), num(2), 100000)
-	case "Replenish":
+		t.C, t.ID = str(3), str(3)
+		if a.assetDef(t.C).cat != 1 {
+			if a.nfresh >= len(freshSlots) {
+				engine.Failf("more than %d issue transactions that create an asset id in one behaviour", len(freshSlots))
+			}
+			t.ID = freshSlots[a.nfresh]
+			a.nfresh++
+		}
+	case "Replenish": // f, t, amount, asset code, asset id
 		t = mk("repl", str(0), str(1), num(2), 100000)
-	case "AssetTransfer":
-		t = mk("axfer", str(0), str(1), num(2), 60000)
-	case "Freeze":
+		t.C, t.ID = str(3), str(4)
+	case "AssetTransfer": // f, t, amount, asset id
+		t = mk("axfer", str(0), str(1), num(2), 100000)
+		t.ID = str(3)
+	case "Freeze": // f, freeze / unfreeze, asset code
 		k := "unfreeze"
 		if ar[1].B() {
 			k = "freeze"
 		}
 		t = mk(k, str(0), "", 0, 100000)
+		t.C = str(2)
 	case "Box": // f, sub sender, sub recipient, amount (LEMO), number of sub transactions, box gas price
 		t = mk("box", str(0), "", 0, 100000)
 		t.GP = num(5)
@@ -943,7 +1082,7 @@ func (a *adapter) Apply(s engine.Step) (engine.Fields, error) {
 		} else {
 			a.logBlock(fl, a.V.DB, a.last, a.lastTxs) // the validator's own account data
 		}
-		a.parent, a.pending, a.last, a.lastTxs = a.last, nil, nil, nil
+		a.parent, a.pending, a.last, a.lastTxs, a.bgl = a.last, nil, nil, nil, 0
 		return fl, nil
 	default:
 		return nil, fmt.Errorf("unknown action %s", s.Act.Name)
